@@ -393,6 +393,8 @@ func TestVerifC07(t *testing.T) {
 					paramsR = append(paramsR, c07Params{Policies: ps, NoDefault: nd, TTL: ttl})
 				}
 				if !nd {
+					// the request's own period (periodic tokens need sudo or a role that sets a period)
+					paramsR = append(paramsR, c07Params{Policies: ps, Period: "72h"}, c07Params{Policies: ps, Period: "72h", TTL: "100000h"})
 					// the request's own explicit maximum, below and above the one a role may set (15m)
 					for _, em := range []string{"5m", "40m"} {
 						paramsR = append(paramsR, c07Params{Policies: ps, TTL: "100000h", ExplMax: em})
